@@ -49,6 +49,7 @@ type jTy struct {
 	PkgPath      *string       `json:"pkgPath"`
 	PkgName      string        `json:"pkgName"`
 	InScope      bool          `json:"inScope"` // the setup package's scope object of that name is this very type
+	HasTypeArgs  bool          `json:"hasTypeArgs"`
 	Elem         int           `json:"elem"`
 	IsStruct     bool          `json:"isStruct"`
 	IsSlice      bool          `json:"isSlice"` // Underlying() is a slice; elem is then its element
@@ -517,6 +518,7 @@ func ExtractFacts(srcPath, dstPath, rel string) (*Facts, error) {
 				j.PkgName = x.Obj().Pkg().Name()
 			}
 			j.InScope = pkg.Types.Scope().Lookup(x.Obj().Name()) == x.Obj()
+			j.HasTypeArgs = x.TypeArgs().Len() > 0
 			for i := 0; i < x.NumMethods(); i++ {
 				m := x.Method(i)
 				sig := m.Type().(*types.Signature)
